@@ -68,7 +68,21 @@ def gen_history(rng, length):
     return ops
 
 
+SPELLING = {"tilde": False}          # how the key file is named to the library: its absolute path, or home-relative ("~/d/key")
+
+
 def run_impl(tmp, file0, tape, ops, nobj=2):
+    if SPELLING["tilde"]:
+        old_home = os.environ.get("HOME")
+        os.environ["HOME"] = tmp
+        try:
+            return _run_impl(tmp, file0, tape, ops, nobj, os.path.join("~", "d", "key"))
+        finally:
+            os.environ["HOME"] = old_home
+    return _run_impl(tmp, file0, tape, ops, nobj, None)
+
+
+def _run_impl(tmp, file0, tape, ops, nobj, spelled):
     """returns the list of observations [{'out':..., 'state':...}] and the list of ops actually executed
     (an exit on a closed object is dropped: not properly nested)"""
     from cincoconfig.encryption import KeyFile, EncryptionError
@@ -101,7 +115,7 @@ def run_impl(tmp, file0, tape, ops, nobj=2):
         return {"data": open(path, "rb").read().hex()}
 
     set_file(file0)
-    objs = [KeyFile(path) for _ in range(nobj)]
+    objs = [KeyFile(spelled or path) for _ in range(nobj)]
     obs, done = [], []
     with Tape(tape) as tp:
         for op in ops:
@@ -137,7 +151,7 @@ def run_impl(tmp, file0, tape, ops, nobj=2):
                 except Exception as e:  # noqa
                     out = {"err": "other:" + type(e).__name__}
             elif k == "new":
-                objs.append(KeyFile(path))
+                objs.append(KeyFile(spelled or path))
             elif k == "write":
                 set_file({"data": op["data"]})
             elif k == "delete":
@@ -266,7 +280,12 @@ def run(ctx, n_quick=400, n_thorough=20000):
             ops = gen_history(rng, rng.randint(3, 14 if not ctx.thorough() else 24))
         # one os.urandom draw per attempt to create the file, successful or not: never fewer entries than operations
         tape = [bytes(rng.getrandbits(8) for _ in range(32)) for _ in range(len(ops) + 2)]
-        case, obs, done = one(ctx, res, file0, tape, ops, tmp, sample=i < 3)
+        SPELLING["tilde"] = (i % 4 == 3)                   # every fourth history names the file relative to the home directory
+        try:
+            case, obs, done = one(ctx, res, file0, tape, ops, tmp, sample=i < 3)
+        finally:
+            SPELLING["tilde"] = False
+        case["home_relative_name"] = (i % 4 == 3)
         batch.append((case, obs))
         reqs.append({"cmd": "kf.run", "objs": 2, "file": file0, "tape": [t.hex() for t in tape], "ops": done})
     replies = ctx.model(reqs)
